@@ -151,6 +151,7 @@ class Ctx(object):
         self.fresh_counter = {}
         self.inputs = {}         # name -> z3 const (reported in counterexamples)
         self.choices = {}        # name -> concrete choice taken on this path
+        self.char_dom = {}       # symbolic character name -> interval set still possible on this path
         self._in_summary = False
         self.nonlinear = False
         self.fmt_table = {}      # marker id -> (z3 term, spec)
